@@ -48,9 +48,10 @@ def gen_cases(c18, seed, n_ed, n_ef, n_ce):
     dec = lambda lo, hi: d64(F(g.uni(lo, hi), 1000))
     lines = []
     for _ in range(n_ed):
-        hr, rows, cells = c18.gen_wide(g) if g.coin(8) else c18.gen_circuit(g)
-        if g.coin(60):
-            rows, cells = c18.scale_circuit(rows, cells, g.choice([3, 7, 13, 37, 101, 1009]))
+        wide = g.coin(25)
+        hr, rows, cells = c18.gen_wide(g) if wide else c18.gen_circuit(g)
+        if g.coin(70) and not wide:
+            rows, cells = c18.scale_circuit(rows, cells, g.choice([3, 7, 13, 37, 101, 1009, 10007, 65537]))
         m = g.choice([F(0), F(0), dec(10, 900), d64(F(1, 3)), d64(F(11, 10))])
         ra, _, _ = c18.row_area(c18.free_rows(rows, cells), m)
         ca = c18.movable_area(cells)
@@ -65,9 +66,10 @@ def gen_cases(c18, seed, n_ed, n_ef, n_ce):
         mew = g.choice([F(1), F(1), dec(50, 2000), d64(F(3, 10)), d64(F(7, 10))])
         lines.append("ED %s %s %s %s" % (c18.tok(t), c18.tok(m), c18.tok(mew), c18.case_circuit(rows, cells)))
     for _ in range(n_ef):
-        hr, rows, cells = c18.gen_wide(g) if g.coin(8) else c18.gen_circuit(g)
-        if g.coin(60):
-            rows, cells = c18.scale_circuit(rows, cells, g.choice([3, 7, 13, 37, 101]))
+        wide = g.coin(25)
+        hr, rows, cells = c18.gen_wide(g) if wide else c18.gen_circuit(g)
+        if g.coin(70) and not wide:
+            rows, cells = c18.scale_circuit(rows, cells, g.choice([3, 7, 13, 37, 101, 1009, 10007]))
         m = g.choice([F(0), F(0), dec(10, 900), d64(F(1, 3))])
         es = [F(1) if g.coin(25) else d32(1 + F(g.uni(1, 3000), 1000)) for _ in cells]
         if g.coin(4) and es:
